@@ -115,6 +115,10 @@ class TimePointDumper(object):
                 properties += item_properties
             else:
                 expression += item
+        if not timepoint.truncated and timepoint.get_is_week_date():
+            # All the supported directives describe the calendar date: %Y is
+            # the calendar year, not the ISO week-numbering year.
+            timepoint = timepoint.to_calendar_date()
         return self._dump_expression_with_properties(
             timepoint, expression, properties)
 
